@@ -61,6 +61,7 @@ func runCmdWorld(w *simrt.World, orig func()) {
 		PreludeWrite  map[string][]byte `json:"prelude_write"`  // written after the earlier invocations (what happened to the disk in between)
 		PreludeMkdir  []string          `json:"prelude_mkdir"`
 		PreludeCwd    []string          `json:"prelude_cwd"` // per earlier invocation: the directory the process stands in meanwhile ("" = where it started)
+		Twins         [][]string        `json:"twins"`       // command lines that other callers of the process run AT THE SAME TIME as the observed invocation, each with its own Generator and backends
 		SdkWd         string            `json:"sdk_wd"`      // not empty: the invocation under observation is sdk.RunThriftgoAsSDK(wd, nil, args...) instead of main()
 	}
 	if len(w.Spec.Driver) > 0 {
@@ -112,6 +113,27 @@ func runCmdWorld(w *simrt.World, orig func()) {
 			// what the observed invocation prints is what follows this mark
 			fmt.Fprint(os.Stdout, "\x00verif-session-boundary\x00\n")
 			fmt.Fprint(os.Stderr, "\x00verif-session-boundary\x00\n")
+		}
+		for i, targs := range sess.Twins {
+			i, targs := i, targs
+			simrt.Go("twin-generation", func() {
+				defer func() {
+					if r := recover(); r != nil {
+						if fmt.Sprintf("%T", r) == "simrt.abortPanic" {
+							panic(r)
+						}
+						simrt.Log("twin.panic", fmt.Sprint(i, " ", r))
+						simrt.Hit("twin.panicked")
+					}
+				}()
+				err := ownInvoke(targs[1:]...)
+				simrt.Log("twin.done", fmt.Sprintf("%d err=%v", i, err))
+				if err != nil {
+					simrt.Hit("twin.failed")
+				} else {
+					simrt.Hit("twin.succeeded")
+				}
+			})
 		}
 		if sess.SdkWd != "" {
 			// what cmd/thriftgo's main does with the error of the same call: message, exit 2
